@@ -146,7 +146,7 @@ func familyExt(family, id string, g *Gen, blocks, maxTx int) *Scenario {
 			blocks = 18
 		}
 		return g.GovStory(id, blocks)
-	case "govfee":
+	case "govfee", "govstake":
 		if blocks < 14 {
 			blocks = 14
 		}
@@ -257,7 +257,7 @@ func familyKindsExt(family string) []string {
 		return EthKinds
 	case "stake":
 		return StakeKinds
-	case "gov", "govfee":
+	case "gov", "govfee", "govstake":
 		return GovKinds
 	case "ons", "onsmix":
 		return OnsKinds
